@@ -101,7 +101,7 @@ def replay_event(prop, doc):
     """re-judge one recorded event (it carries the observed result, so this re-checks the verdict;
     re-running the implementation is what the check itself does)"""
     ev = doc["detail"]["event"]
-    v = Validator()
+    v = Validator("TraceSuite.tla", "TraceSuite.cfg") if "kind" in ev else Validator()
     v.events.append((dict(ev, id=1), None))
     verdicts, unknown, _ = v.run()
     fails = verdicts.get(1, [])
